@@ -99,23 +99,23 @@ func checkC13(c *km.Ctx) {
 				continue
 			}
 			nTruePaths++
-			domEmpty, domMatch, patEmpty, patMatch := false, false, false, false
-			for _, f := range kk.List() {
-				if lenZeroFact(f, "AllowedRedirectDomains") {
-					domEmpty = true
-				}
-				if lenZeroFact(f, "AllowedRedirectURLRE") {
-					patEmpty = true
-				}
-				if domainMatchFact(s, hp, f) {
-					domMatch = true
-				}
-				if f.Op == token.ILLEGAL && f.Pol {
-					if cl, idx := callRes(f.X); cl != nil && idx == 0 && km.CalleeFull(cl.Common()) == "regexp.MatchString" && isElemOfField(cl.Common().Args[0], "AllowedRedirectURLRE") && km.Unwrap(cl.Common().Args[1]) == ssa.Value(vf.Params[1]) {
-						patMatch = true
-					}
-				}
+			// each of the four is looked for on this path and inside the predicate helpers it went through
+			holds := func(d func(f km.Fact, resolve func(ssa.Value) ssa.Value) bool) bool {
+				return s.Holds(kk, km.Prim{Name: "-", Rel: d})
 			}
+			domEmpty := holds(func(f km.Fact, _ func(ssa.Value) ssa.Value) bool { return lenZeroFact(f, "AllowedRedirectDomains") })
+			patEmpty := holds(func(f km.Fact, _ func(ssa.Value) ssa.Value) bool { return lenZeroFact(f, "AllowedRedirectURLRE") })
+			domMatch := holds(func(f km.Fact, resolve func(ssa.Value) ssa.Value) bool { return domainMatchFactR(s, hp, f, resolve) })
+			patMatch := holds(func(f km.Fact, resolve func(ssa.Value) ssa.Value) bool {
+				if f.Op != token.ILLEGAL || !f.Pol {
+					return false
+				}
+				cl, idx := callRes(f.X)
+				if cl == nil || idx != 0 || km.CalleeFull(cl.Common()) != "regexp.MatchString" || !isElemOfField(cl.Common().Args[0], "AllowedRedirectURLRE") {
+					return false
+				}
+				return resolve(cl.Common().Args[1]) == ssa.Value(vf.Params[1])
+			})
 			switch {
 			case domEmpty && patEmpty:
 				bad = appendUniq(bad, "true with neither domains nor patterns configured")
@@ -271,6 +271,34 @@ func checkC13(c *km.Ctx) {
 					}
 				}
 				r.Add("R-C13-4", km.FuncName(fn), "host decided by the shared predicate", posOf(c, ci), "hostnameInDomain(parse(param).Hostname(), configured domain) after parse ok ∧ scheme == https", sprintf("host=%v domain=%v https=%v", hostOK, domOK, schemeOK), hostOK && domOK && schemeOK)
+			}
+		}
+		// ... or through a helper that runs the shared predicate over the configured domains for a host it is given
+		for _, ci := range km.CallsIn(fn) {
+			g := km.StaticCallee(ci.Common())
+			if g == nil || g == hp || g.Blocks == nil || !c.InModule(g) {
+				continue
+			}
+			for _, c2 := range km.CallsIn(g) {
+				if km.StaticCallee(c2.Common()) != hp {
+					continue
+				}
+				a2 := c2.Common().Args
+				hostParam, isP := km.Unwrap(a2[0]).(*ssa.Parameter)
+				if !isP || !isElemOfField(a2[1], "AllowedRedirectDomains") {
+					continue
+				}
+				args := km.CallArgs(ci.Common())
+				hostOK := false
+				for i, q := range g.Params {
+					if q == hostParam && i < len(args) {
+						hostOK = hostOfParsedParam(args[i], 0)
+					}
+				}
+				n++
+				st := c.F.At(ci)
+				schemeOK := st.All(func(k km.Conj) bool { return s.Holds(k, https) && s.Holds(k, parseOK) })
+				r.Add("R-C13-4", km.FuncName(fn), "host decided by the shared predicate", posOf(c, ci), "hostnameInDomain(parse(param).Hostname(), configured domain) after parse ok ∧ scheme == https", sprintf("host=%v domain=true https=%v (through %s)", hostOK, schemeOK, g.Name()), hostOK && schemeOK)
 			}
 		}
 		if n == 0 {
@@ -509,6 +537,12 @@ func domainMatcherClosure(s *km.Sem, hp *ssa.Function, v ssa.Value) bool {
 
 // domainMatchFact: the fact says the host of the parsed parameter is inside a configured domain
 func domainMatchFact(s *km.Sem, hp *ssa.Function, f km.Fact) bool {
+	return domainMatchFactR(s, hp, f, func(v ssa.Value) ssa.Value { return km.Unwrap(v) })
+}
+
+// domainMatchFactR: as above, with the host operand resolved to the frame the question was asked in (a predicate
+// helper receives the host as a parameter).
+func domainMatchFactR(s *km.Sem, hp *ssa.Function, f km.Fact, resolve func(ssa.Value) ssa.Value) bool {
 	if f.Op != token.ILLEGAL || !f.Pol {
 		return false
 	}
@@ -517,7 +551,7 @@ func domainMatchFact(s *km.Sem, hp *ssa.Function, f km.Fact) bool {
 		return false
 	}
 	if km.StaticCallee(cl.Common()) == hp {
-		return hostOfParsedParam(cl.Common().Args[0], 0) && isElemOfField(cl.Common().Args[1], "AllowedRedirectDomains")
+		return hostOfParsedParam(resolve(cl.Common().Args[0]), 0) && isElemOfField(cl.Common().Args[1], "AllowedRedirectDomains")
 	}
 	name := km.CalleeFull(cl.Common())
 	if i := strings.Index(name, "["); i > 0 {
